@@ -346,11 +346,20 @@ class Abs(Operator):
         if isinstance(a, ScalarValue):
             return as_ufl(abs(a._value))
 
-        return Operator.__new__(cls)
+        # construct and initialize a new Abs object
+        self = Operator.__new__(cls)
+        self._init(a)
+        return self
+
+    def _init(self, a):
+        """Initialise."""
+        self.ufl_operands = (a,)
 
     def __init__(self, a):
         """Initialise."""
-        Operator.__init__(self, (a,))
+        # Python calls __init__ also on an existing Abs returned from
+        # __new__ (abs(abs(f))): the operands must not be set here
+        Operator.__init__(self)
 
     def evaluate(self, x, mapping, component, index_values):
         """Evaluate."""
